@@ -10,6 +10,11 @@
 //   {"op":"create_root","n":"a"[,"exp":"ok"|"throw"][,"fault":k]} ... (see exec_op)
 // Handles are named by creation index (1-based, successful creations only); the trace logs ids.
 #include <djinterop/djinterop.hpp>
+
+#include <sys/wait.h>
+#include <unistd.h>
+
+#include <set>
 #include <sys/stat.h>
 
 #include <chrono>
@@ -41,7 +46,7 @@ struct world
     std::vector<std::optional<dj::track>> th{std::nullopt};
     std::vector<std::string> names;
     sqlite3* conn = nullptr;
-    bool want_raw = false, want_rep = false, auto_reopen = false, want_stmts = false, sweep = false, noobs = false;
+    bool want_raw = false, want_rep = false, auto_reopen = false, want_stmts = false, sweep = false, noobs = false, crash = false;
     bool dead = false;  // rest of this execution is skipped
     int64_t max_id_seen = 0, max_tid_seen = 0;
     int ntracks_created = 0;
@@ -263,6 +268,7 @@ void start_world(world& w, const json& r)
     w.want_stmts = r.value("stmts", false);
     w.sweep = r.value("sweep", false);
     w.noobs = r.value("noobs", false);
+    w.crash = r.value("crash", false) && r.value("mode", "mem") == "disk";
     for (auto& n : r.value("names", json::array()))
         w.names.push_back(n.get<std::string>());
     shim::reset_dbs();
@@ -375,10 +381,11 @@ void observation_phase(world& w, json& rec)
     }
 }
 
-void do_reopen(world& w, json& rec)
+// Release every handle and the database object (the connection is closed); the ids the handles named are returned.
+void close_handles(world& w, std::vector<int64_t>& cids, std::vector<int64_t>& tids)
 {
-    // Release every handle, load the library again from its directory.
-    std::vector<int64_t> cids(w.ch.size(), 0), tids(w.th.size(), 0);
+    cids.assign(w.ch.size(), 0);
+    tids.assign(w.th.size(), 0);
     for (size_t i = 1; i < w.ch.size(); ++i)
         if (w.ch[i])
             cids[i] = w.ch[i]->id();
@@ -391,6 +398,11 @@ void do_reopen(world& w, json& rec)
         t.reset();
     w.db.reset();
     shim::reset_dbs();
+}
+
+// Load the library again from its directory and look the handles up by id (a handle whose entity is gone stays empty).
+void open_handles(world& w, const std::vector<int64_t>& cids, const std::vector<int64_t>& tids, json& rec)
+{
     // sentinel: an out-parameter the callee forgets to assign must not look like a result
     dj::engine::engine_schema loaded =
         w.schema == dj::engine::engine_schema::schema_1_7_1 ? dj::engine::engine_schema::schema_1_6_0 : dj::engine::engine_schema::schema_1_7_1;
@@ -426,6 +438,13 @@ void do_reopen(world& w, json& rec)
             if (t)
                 w.th[i] = *t;
         }
+}
+
+void do_reopen(world& w, json& rec)
+{
+    std::vector<int64_t> cids, tids;
+    close_handles(w, cids, tids);
+    open_handles(w, cids, tids, rec);
 }
 
 void exec_op(world& w, const json& op)
@@ -623,6 +642,136 @@ void exec_op(world& w, const json& op)
         return;
     }
 
+    // Crash points (library on disk): before the call proper, the same call is attempted in a forked process that
+    // opens the library itself and dies right before the k-th statement of the call is stepped, k = 1, 2, ... -
+    // no destructor runs, no ROLLBACK is issued.  The parent then loads the library again (SQLite rolls a hot
+    // journal back) and observes.  While the stored tables are unchanged the attempt is logged as a "crash" record
+    // and the next k is tried; once they differ the dead process had committed: the record is logged as the CALL
+    // (its effects must be the complete effects of the call - a partial update is what the trace spec rejects) and
+    // the call proper is not executed again.
+    bool done_by_crash = false;
+    bool all_valid = true;   // (a handle to a removed entity cannot be looked up again in another process)
+    if (w.crash && !probe)
+    {
+        for (auto& c : w.ch)
+            all_valid = all_valid && (!c || c->is_valid());
+        for (auto& t : w.th)
+            all_valid = all_valid && (!t || t->is_valid());
+    }
+    if (w.crash && !probe && all_valid)
+    {
+        std::set<int64_t> crates_before, tracks_before;
+        for (auto& c : w.db->crates())
+            crates_before.insert(c.id());
+        for (auto& t : w.db->tracks())
+            tracks_before.insert(t.id());
+        for (int k = 1; k <= 64 && !w.dead; ++k)
+        {
+            std::string d0 = vh::raw_reader{w.conn}.digest();
+            std::vector<int64_t> cids, tids;
+            close_handles(w, cids, tids);
+            fflush(nullptr);
+            pid_t pid = fork();
+            if (pid == 0)
+            {
+                // child: its own connection; handles are looked up into the very same slots `f` refers to
+                alarm(0);
+                json dummy;
+                open_handles(w, cids, tids, dummy);
+                if (w.dead)
+                    _exit(44);
+                bool all = true;   // every handle the call needs must have been found again
+                for (size_t i = 1; i < cids.size(); ++i)
+                    all = all && (!cids[i] || w.ch[i]);
+                for (size_t i = 1; i < tids.size(); ++i)
+                    all = all && (!tids[i] || w.th[i]);
+                if (!all)
+                    _exit(46);
+                shim::begin_call();
+                shim::set_crash(k);
+                auto oc = vh::guarded(name.c_str(), f);
+                _exit(oc.ok ? 43 : 45);   // the call ran to its end (k exceeds its statements): returned / threw
+            }
+            int status = 0;
+            if (pid < 0 || waitpid(pid, &status, 0) < 0)
+            {
+                vh::emit({{"e", "skip"}, {"why", "fork/waitpid failed"}});
+                w.dead = true;
+                break;
+            }
+            int code = WIFEXITED(status) ? WEXITSTATUS(status) : 1000 + (WIFSIGNALED(status) ? WTERMSIG(status) : 0);
+            json r = rec;
+            r["crash"] = {{"k", k}, {"code", code}};
+            open_handles(w, cids, tids, r);     // sets out / exists / want / loaded / ver
+            if (w.dead)
+            {
+                r["e"] = "crash";
+                vh::emit(r);
+                break;
+            }
+            bool same = vh::raw_reader{w.conn}.digest() == d0;
+            r["dsame"] = same;
+            if (code != shim::CRASH_EXIT && code != 43 && code != 45)
+            {
+                // the child died of something else (signal, sanitizer, could not load): that is a finding by itself
+                r["e"] = "crash";
+                r["childdied"] = true;
+                observation_phase(w, r);
+                vh::emit(r);
+                w.dead = true;
+                break;
+            }
+            if (same && code == shim::CRASH_EXIT)
+            {
+                r["e"] = "crash";
+                observation_phase(w, r);
+                vh::emit(r);
+                continue;   // next crash point
+            }
+            if (same)
+                break;      // the call ran to its end without changing anything: execute it normally below
+            // the dead process had committed: this IS the call
+            r.erase("exists");
+            r.erase("want");
+            r.erase("loaded");
+            r.erase("ver");
+            r["out"] = code == 45 ? "throw" : "ok";
+            if (code == 45)
+            {
+                r["ex"] = "unknown (thrown in the crashed process)";
+                r["std"] = true;
+            }
+            int64_t nid = 0;
+            if (name == "create_track")
+            {
+                for (auto& t : w.db->tracks())
+                    if (!tracks_before.count(t.id()))
+                    {
+                        nid = t.id();
+                        w.th.push_back(t);
+                    }
+            }
+            else if (name.rfind("create_", 0) == 0)
+            {
+                for (auto& c : w.db->crates())
+                    if (!crates_before.count(c.id()))
+                    {
+                        nid = c.id();
+                        w.ch.push_back(c);
+                    }
+            }
+            r["new"] = nid;
+            r["ns"] = 0;
+            r["nw"] = 0;
+            observation_phase(w, r);
+            vh::emit(r);
+            done_by_crash = true;
+            break;
+        }
+    }
+    if (done_by_crash || w.dead)
+        return;
+
     // C14 sweep: before the call proper, the same call is attempted with its 1st, 2nd, ... statement
     // failing, until the fault no longer fires (k exceeds the number of statements the call issues);
     // that last attempt is the ordinary call.  Every faulted attempt gets its own trace record.
@@ -661,11 +810,11 @@ void exec_op(world& w, const json& op)
             if (fired)
                 r["dsame"] = vh::raw_reader{w.conn}.digest() == d0;
         }
-        if (w.want_stmts)
+        if (w.want_stmts && !fired)   // (complete executions only: the discipline is judged on whole calls)
         {
             json st = json::array();
             for (auto& s : shim::stmts())
-                st.push_back({{"k", s.k}, {"ro", s.readonly}, {"rc", s.rc}, {"f", s.faulted}, {"sql", s.sql.substr(0, 160)}});
+                st.push_back({{"k", s.k}, {"ro", s.readonly}, {"rc", s.rc}, {"f", s.faulted}, {"c", s.cls}, {"chg", s.chg}, {"sql", s.sql.substr(0, 160)}});
             r["stmts"] = st;
         }
         r["us"] = (int64_t)std::chrono::duration_cast<std::chrono::microseconds>(t1 - t0).count();
